@@ -22,8 +22,11 @@ def obligations(tier: str) -> list[Ob]:
     q = tier == "quick"
     obs = skeleton_obs("C14", "model", ["memb_", "rt_"], tier, names=["enums"], label="membership")
     obs += skeleton_obs("C14", "model", ["memb_", "rt_"], tier, names=["enums"], config={"literal_enums": True}, label="membership-literal-enums")
+    nullable = {f: "C14-F2" for f in ("memb_HolderB_null_enum", "memb_HolderD_null_int_e", "memb_HolderD_opt_null_ref")}
     for o in obs:
         o.params["replay_func"] = "vlib.props.C14:replay"
+        o.params["finding_by_func"] = nullable
+        o.params["known_key"] = "membership"
     obs.append(
         harness_ob(
             "enum_builders", "C06_enums.py", tier, timeout=150 if q else 600, cpus=4, replay_func="vlib.props.C14:replay",
